@@ -413,6 +413,12 @@ def check_refusals(case, ctx: Ctx):
             return
         if a.is_adaptive():
             return
+        sa, sb = snapshot(a)["binnings"], snapshot(b)["binnings"]
+        if all(len(x["bins"]) == len(y["bins"]) for x, y in zip(sa, sb)) and all(np.allclose(np.array(x["bins"]), np.array(y["bins"])) for x, y in zip(sa, sb)):
+            # physt's notion of "the same bins" is tolerance based (numpy.allclose, rtol 1e-5 of the edge magnitude):
+            # such pairs are outside the domain of this refusal (see DESIGN section 7, D30)
+            ctx.label("allclose_equal_bins_out_of_domain")
+            return
         ctx.refused("a + b with different bins", lambda: a + b)
         ctx.refused("a += b with different bins", a.__iadd__, b)
     elif kind == "adaptive_other_grid":
